@@ -776,7 +776,11 @@ func TestPackets(t *testing.T) {
 	r := NewRun(t, "Packets")
 	defer r.Close()
 	if lines := ReplayLines(); lines != nil {
-		pkRunTrace(t, r, lines)
+		// a replay file may hold several traces (C12 / C18 replay whole generated histories): each
+		// starts at its `reset` line on a fresh fixture
+		for _, tr := range SplitTraces(lines) {
+			pkRunTrace(t, r, tr)
+		}
 		return
 	}
 	// corpus traces first: even the smallest run contains the named rare branches
